@@ -65,6 +65,12 @@ VOPS = ['==', '!=', '<', '<=', '>', '>=', '~=']
 SOPS = ['==', '!=', '<', '<=', '>', '>=']
 
 
+# boundary shapes every history parses: empty and blank in-lists, a list of one, the empty string as value, extremes
+BOUNDARY_TEXTS = ["python_version not in ''", "python_version in ''", "python_full_version not in ''", "python_full_version in ' '", "python_version not in '  '",
+                  "implementation_version in ''", "python_version in '3.8'", "python_version not in '3.8'", "os_name == ''", "os_name != ''", "'' in os_name", "os_name in ''",
+                  "os_name not in ''", "'' not in os_name", "python_full_version >= '0'", "python_full_version < '0'", "python_version == '0'", "extra == 'a' and extra != 'a'"]
+
+
 def q(rng, s):
     if "'" in s:
         return '"' + s + '"'
@@ -96,7 +102,7 @@ def gen_atom(rng, odd=0.1, strings=0.35, extras=0.2, deprecated=0.05, lists=0.1,
     v = rng.choice(pool)
     rr = rng.random()
     if rr < lists:
-        k = rng.randint(1, 3)
+        k = 0 if rng.random() < .08 else rng.randint(1, 3)       # the empty list: `in` is never true, `not in` always
         # members are separated by any white space, possibly more than one character, with optional padding
         seps = [' ', ' ', ' ', '  ', '\t', ' \t', '\n']
         vs = ''.join(rng.choice(pool) + (rng.choice(seps) if i + 1 < k else '') for i in range(k))
@@ -113,14 +119,42 @@ def gen_atom(rng, odd=0.1, strings=0.35, extras=0.2, deprecated=0.05, lists=0.1,
     return "%s %s %s" % (key, op, q(rng, v))
 
 
-def gen_marker(rng, depth=2, **kw):
+def flip_atom(t):
+    """the complementary comparison on the same variable (== / !=, in / not in), textually"""
+    for a, b in ((' not in ', ' in '), (' in ', ' not in '), (' == ', ' != '), (' != ', ' == ')):
+        if a in t:
+            return t.replace(a, b, 1)
+    return t
+
+
+def boolean_family(rng, n_pairs=24):
+    """small markers over the same few boolean variables (extras, `in`, substring), in both polarities and combined
+    pairwise: operands that share a root variable with different complement bits"""
+    atoms = ["extra == 'a'", "extra != 'a'", "extra == 'b'", "extra != 'b'", "extra == 'c'",
+             "'nt' in os_name", "'nt' not in os_name", "'posix' in os_name", "'win' in sys_platform",
+             "os_name in 'posix nt'", "os_name not in 'posix nt'", "os_name in 'linux'", "sys_platform in 'linux darwin'",
+             "sys_platform not in 'linux darwin'"]
+    out = list(atoms)
+    for _ in range(n_pairs):
+        x, y = rng.choice(atoms), rng.choice(atoms)
+        out.append('(%s %s %s)' % (x, rng.choice(['and', 'or']), y))
+    return out
+
+
+def gen_marker(rng, depth=2, _pool=None, **kw):
+    if _pool is None and depth >= 2 and rng.random() < 0.2:
+        # leaves from a small pool of comparisons and their complements (if-then-else shapes over one variable)
+        _pool = [gen_atom(rng, **dict(kw, reverse=0.0)) for _ in range(rng.randint(2, 3))]
     if depth == 0 or rng.random() < 0.3:
+        if _pool:
+            t = rng.choice(_pool)
+            return flip_atom(t) if rng.random() < .4 else t
         return gen_atom(rng, **kw)
     n = rng.randint(2, 3)
     op = rng.choice([' and ', ' or '])
     parts = []
     for _ in range(n):
-        p = gen_marker(rng, depth - 1, **kw)
+        p = gen_marker(rng, depth - 1, _pool=_pool, **kw)
         if (' and ' in p or ' or ' in p) and (op == ' and ' or rng.random() < .5):
             p = '(' + p + ')'
         parts.append(p)
@@ -135,6 +169,7 @@ class Session:
     def __init__(self, harness_path, env=None):
         self.p = fw.Proc(harness_path, env=env)
         self.dumps = {}      # reg -> harness dump
+        self.sizes = {}      # reg -> number of nodes of the unfolded dump
         self.models = {}     # reg -> model tree | exception
         self.raw_versions = []
         self.texts = {}
@@ -146,6 +181,7 @@ class Session:
     def _record(self, reg, d):
         reg = int(reg)
         self.dumps[reg] = d
+        self.sizes[reg] = 10 ** 9 if (isinstance(d, list) and d and d[0] == 'BIG') else tree_size(d)
         try:
             self.models[reg] = trees.to_model(d, self.raw_versions)
         except (trees.NotPartition, trees.Unmodelled) as e:
@@ -179,6 +215,26 @@ class Session:
         if isinstance(m, Exception):
             raise m
         return m
+
+
+def tree_size(d):
+    """nodes of a harness dump (iterative: dumps can be deep)"""
+    n, stack = 0, [d]
+    while stack:
+        t = stack.pop()
+        if not isinstance(t, list) or not t:
+            continue
+        tag = t[0]
+        if tag in ('V', 'S'):
+            n += 1
+            stack.extend(e[1] for e in t[2])
+        elif tag in ('In', 'Co'):
+            n += 1
+            stack.extend(t[3:5])
+        elif tag == 'Ex':
+            n += 1
+            stack.extend(t[2:4])
+    return n
 
 
 def describe(sess, reg):
@@ -248,3 +304,62 @@ def major_minor(v):
     import re
     m = re.match(r'^(?:\d+!)?(\d+)(?:\.(\d+))?', v)
     return '%s.%s' % (m.group(1), m.group(2) or '0')
+
+
+# ---------------- shared batteries ----------------
+
+# PEP 508's marker variables and the environment field each one reads (deprecated aliases included); written down here,
+# NOT read from the crate, so that a slip in the crate's keyword table is seen
+OFFICIAL_STRING = {'os_name': 'os_name', 'sys_platform': 'sys_platform', 'platform_machine': 'platform_machine',
+                   'platform_python_implementation': 'platform_python_implementation', 'platform_release': 'platform_release',
+                   'platform_system': 'platform_system', 'platform_version': 'platform_version', 'implementation_name': 'implementation_name',
+                   'os.name': 'os_name', 'sys.platform': 'sys_platform', 'platform.version': 'platform_version', 'platform.machine': 'platform_machine',
+                   'platform.python_implementation': 'platform_python_implementation', 'python_implementation': 'platform_python_implementation'}
+OFFICIAL_VERSION = {'python_version': ('python_version', '3.1'), 'python_full_version': ('python_full_version', '3.1.5'),
+                    'implementation_version': ('implementation_version', '9.9')}
+
+
+def key_table_battery(ctx, parse_eval):
+    """every marker variable name of PEP 508 reads its own environment field and no other.
+    parse_eval(text, env) -> 'T' / 'F' / None (not accepted)"""
+    for name, field in OFFICIAL_STRING.items():
+        for text in ("%s == 'val'" % name, "'val' == %s" % name):
+            own = {f: ('val' if f == field else 'other-' + f) for f in STRING_KEYS}
+            others = {f: ('zzz' if f == field else 'val') for f in STRING_KEYS}
+            for env_s, want in ((own, 'T'), (others, 'F')):
+                env = dict(DEFAULT_ENV, **env_s)
+                got = parse_eval(text, env)
+                ctx.oracle_cases += 1
+                if got != want:
+                    ctx.failure('the marker variable %s does not read the environment field %s: %r evaluates to %s where only that field %s the value'
+                                % (name, field, text, got, 'has' if want == 'T' else 'lacks'), {'text': text, 'env': env})
+    for name, (field, val) in OFFICIAL_VERSION.items():
+        text = "%s == '%s'" % (name, val)
+        own = dict(DEFAULT_ENV, python_full_version='3.1.5', python_version='3.1', implementation_version='9.9')
+        others = {'python_version': dict(DEFAULT_ENV, python_full_version='3.2.5', python_version='3.2', implementation_version='3.1'),
+                  'python_full_version': dict(DEFAULT_ENV, python_full_version='3.1.6', python_version='3.1', implementation_version='3.1.5'),
+                  'implementation_version': dict(DEFAULT_ENV, python_full_version='9.9.0', python_version='9.9', implementation_version='9.8')}[field]
+        for env, want in ((own, 'T'), (others, 'F')):
+            got = parse_eval(text, env)
+            ctx.oracle_cases += 1
+            if got != want:
+                ctx.failure('the marker variable %s does not read the environment field %s: %r evaluates to %s' % (name, field, text, got), {'text': text, 'env': env})
+
+
+def check_parses(ctx, sess, keys, limit=120):
+    """every marker text this history parsed, through the extracted parser model as well: same diagram, same warning kinds"""
+    from . import textmodel
+    steps = [st for st in sess.steps if st[0] == 'parse' and st[2] is not None]
+    if len(steps) > limit:
+        steps = ctx.rng.sample(steps, limit)
+    tm = textmodel.MarkerTextModel(sess.p, keys)
+    for st in steps:
+        text, reg, r = st[1], st[2], st[3]
+        want = sess.models.get(reg)
+        if want is None or isinstance(want, Exception):
+            continue
+        m = tm.parse(text)
+        ctx.corr_cases += 1
+        if m[0] != 'ok' or m[1] != want or m[2] != r[3]:
+            ctx.disagreement('parse_markers ~ MarkerTree::parse_reporter (diagram, warning kinds)', text, dump(m)[:400], dump([want, r[3]])[:400])
+    tm.close()
